@@ -178,8 +178,17 @@ func PoolChurn(maxClass int) {
 		for k := 0; k < 2; k++ {
 			b := PoolMalloc(c)
 			full := b[:cap(b)]
-			for i := range full {
-				full[i] = 0xEE
+			if len(full) <= 65536 {
+				for i := range full {
+					full[i] = 0xEE
+				}
+			} else {
+				for i := 0; i < 4096; i++ {
+					full[i], full[len(full)-1-i] = 0xEE, 0xEE
+				}
+				for i := 0; i < len(full); i += 4096 {
+					full[i] = 0xEE
+				}
 			}
 			PoolFree(b)
 		}
